@@ -30,6 +30,7 @@
 #include <string.h>
 
 #include "archive.h"
+#include "archive_private.h"
 
 /*
  * Glue to read an archive from a block of memory.
@@ -69,6 +70,8 @@ archive_read_open_memory2(struct archive *a, const void *buff,
 {
 	struct read_memory_data *mine;
 
+	archive_check_magic(a, ARCHIVE_READ_MAGIC, ARCHIVE_STATE_NEW,
+	    "archive_read_open_memory");
 	mine = calloc(1, sizeof(*mine));
 	if (mine == NULL) {
 		archive_set_error(a, ENOMEM, "No memory");
